@@ -80,7 +80,7 @@ def may_alias(e: ast.expr, f: FuncInfo, local_defs, depth=0):
     return None
 
 
-def rule_r1(rep, program: Program, prop=PROP, rule="R1"):
+def rule_r1(rep, program: Program, prop=PROP, rule="R1", only_inplace=False):
     r = rep.rule(rule, "matrices.py: only guarded lazy slots are assigned outside constructors; no in-place mutation of anything that may alias an operand, parameter or attribute", floor=150)
     slots = set()
     for f in matrix_functions(program):
@@ -113,7 +113,7 @@ def rule_r1(rep, program: Program, prop=PROP, rule="R1"):
                 local_defs.setdefault(n.target.id, []).append(n.value)
         r.inst({"function": f.qualname}, exercised=True)
         # ---- (a) attribute stores outside constructors
-        if f.name != "__init__":
+        if f.name != "__init__" and not only_inplace:
             for n in ast.walk(f.node):
                 tg = []
                 if isinstance(n, ast.Assign):
